@@ -3,6 +3,7 @@ package main
 
 import (
 	"context"
+	"errors"
 	"log"
 	"os"
 	"os/signal"
@@ -20,6 +21,11 @@ func main() {
 	cmd.Stdout = os.Stdout
 	cmd.Stderr = os.Stderr
 	if _, err := cmd.Run(ctx); err != nil {
+		var exitErr *rsynccmd.ExitError
+		if errors.As(err, &exitErr) {
+			// --help, --version: output was printed already
+			os.Exit(exitErr.Code)
+		}
 		log.Fatal(err)
 	}
 }
